@@ -13,12 +13,73 @@ EXPLANATION = ('Completeness is a numerical statement about eight closed-form br
                'value numbers in columns 0-2, column 4 negated and columns 3 and 5 differing by an odd multiple of pi; rows 0/1 and 2/3 share '
                'theta1; the verification loop covers the whole table; (R02.3) the theta4/theta5/theta6 formulas of the four elbow/shoulder '
                'branches are one term template instantiated with the branch\'s own sin/cos(theta1), sin/cos(theta2+theta3).')
+EXPLANATION += (' (R02.4) sibling agreement: theta1..theta5 of the 5-DOF and the 6-DOF solver are the same terms, row by row; (R02.5) the '
+                'positional columns theta1..theta3 of all four shoulder/elbow branches equal, as polynomials over opaque function atoms, the '
+                'published OPW closed form (Brandstoetter et al. 2014, eqs. for theta1_i/ii, theta2_i..iv, theta3_i..iv) written over the wrist '
+                'centre (cx, cy, cz) and the parameters - this is where the lateral offset b enters, which no bundled test exercises.')
 NOT_DECIDED = 'that each non-singular configuration lies on one of the branches within tolerance; absence of duplicates; equal answer-set size (all numerical)'
 ASSUMPTIONS = ['sign corrections are +1 or -1 for the joints of a 6-DOF robot (s*s = 1)']
 
 
+def same_mod_2pi(ring, a, b):
+    """equal terms, or polynomial difference a constant multiple of 2*pi (the candidates are reduced to [-pi, pi] afterwards)"""
+    if a == b:
+        return True
+    d = ring.nf(a) - ring.nf(b)
+    if d.is_zero():
+        return True
+    if d.is_const():
+        q = float(d.const_value()) / (2 * math.pi)
+        return abs(q - round(q)) < 1e-12
+    return False
+
+
+def P_(n):
+    return ('fld', ('fld', ('param', 1, 'self'), 'parameters'), n)
+
+
+def _call(n, *a):
+    return ('call', 'std::f64::<impl f64>::' + n) + tuple(a)
+
+
+def _b(op, a, c):
+    return ('bin', op, a, c)
+
+
+def spec_positional(cx, cy, cz):
+    """theta1..theta3 of the four shoulder/elbow branches as in the OPW paper (and in opw_kinematics by Jmeyer1292)."""
+    K = lambda v: ('const', 'f64', float(v))
+    a1, a2, bb, c1, c2, c3 = P_('a1'), P_('a2'), P_('b'), P_('c1'), P_('c2'), P_('c3')
+    add, sub, mul, div = (lambda x, y: _b('Add', x, y)), (lambda x, y: _b('Sub', x, y)), (lambda x, y: _b('Mul', x, y)), (lambda x, y: _b('Div', x, y))
+    neg = lambda x: ('un', 'Neg', x)
+    nx1 = sub(_call('sqrt', sub(add(mul(cx, cx), mul(cy, cy)), mul(bb, bb))), a1)
+    tmp1 = _call('atan2', cy, cx)
+    tmp2 = _call('atan2', bb, add(nx1, a1))
+    th1 = [sub(tmp1, tmp2), sub(add(tmp1, tmp2), K(math.pi))]
+    tmp3 = sub(cz, c1)
+    s1_2 = add(mul(nx1, nx1), mul(tmp3, tmp3))
+    tmp4 = add(nx1, mul(K(2.0), a1))
+    s2_2 = add(mul(tmp4, tmp4), mul(tmp3, tmp3))
+    k2 = add(mul(a2, a2), mul(c3, c3))
+    c2_2 = mul(c2, c2)
+    s1, s2 = _call('sqrt', s1_2), _call('sqrt', s2_2)
+    t13 = _call('acos', div(sub(add(s1_2, c2_2), k2), mul(mul(K(2.0), s1), c2)))
+    t14 = _call('atan2', nx1, tmp3)
+    t15 = _call('acos', div(sub(add(s2_2, c2_2), k2), mul(mul(K(2.0), s2), c2)))
+    t16 = _call('atan2', tmp4, tmp3)
+    th2 = [add(neg(t13), t14), add(t13, t14), sub(neg(t15), t16), sub(t15, t16)]
+    t9 = mul(mul(K(2.0), c2), _call('sqrt', k2))
+    t10 = _call('atan2', a2, c3)
+    t11 = _call('acos', div(sub(sub(s1_2, c2_2), k2), t9))
+    t12 = _call('acos', div(sub(sub(s2_2, c2_2), k2), t9))
+    th3 = [sub(t11, t10), sub(neg(t11), t10), sub(t12, t10), sub(neg(t12), t10)]
+    return [[th1[0], th2[0], th3[0]], [th1[0], th2[1], th3[1]], [th1[1], th2[2], th3[2]], [th1[1], th2[3], th3[3]]]
+
+
 def run(ctx):
     prog = ctx.prog
+    ctx.rule('R02.4', 'theta1..theta5 of the 5-DOF solver equal the first five columns of the 6-DOF candidate table (sibling agreement)')
+    ctx.rule('R02.5', 'theta1..theta3 of the four positional branches equal the published OPW closed form over the wrist centre and the parameters (ring normal form over function atoms)')
     ctx.rule('R02.1', 'F_i(G_i(theta)) = theta for the forward joint map F and the inverse joint map G (ring normal form, s*s = 1), same index i')
     ctx.rule('R02.2', 'candidate table closure: row k+4 = wrist flip of row k (theta4 + pi, -theta5, theta6 - pi), shared theta1 per shoulder branch, loop over the whole table')
     ctx.rule('R02.3', 'theta4/theta5/theta6 of branches 0..3 are one term template over the branch\'s own sin/cos(theta1), sin/cos(theta2+theta3)')
@@ -28,9 +89,9 @@ def run(ctx):
     for b, ncol in ((six, 6), (five, 5)):
         ctx.fn(b)
         name = b.path.split('::')[-1]
-        sols = [l for l, n in b.names.items() if n == 'sols']
-        th = [l for l, n in b.names.items() if n == 'theta']
-        ctx.require(len(sols) == 1 and len(th) == 1, 'locals sols / theta in ' + name)
+        th0, sols0 = util.table_locals(b)
+        ctx.require(th0 is not None and sols0 is not None, 'candidate table and candidate array ([[f64;N];8]) in ' + name)
+        sols, th = [sols0], [th0]
         found = False
         for i, j, st in b.stmts():
             lhs = st['lhs']
@@ -101,6 +162,36 @@ def run(ctx):
                     found = '0..%s' % (hi,)
                     ok = util.const_val(r[0]) == 0 and hi == (8, 8)
         ctx.check(ok, 'R02.2', name + '/verify-all-rows', b.where(0), b.path, 'the verification loop must visit all eight candidate rows', found=found, detail=found or '')
+
+    # ---- R02.4 sibling agreement
+    t5 = theta_table(five)
+    ctx.require(t5 is not None and len(t5) == 8, 'candidate table of the 5-DOF solver')
+    for r in range(8):
+        for c in range(5):
+            ctx.check(same_mod_2pi(r0, t6[r][c], t5[r][c]), 'R02.4', 'theta[%d][%d]' % (r, c), five.where(0), five.path,
+                      'theta%d of branch %d differs between the 6-DOF and the 5-DOF solver: one of the two copies was edited' % (c + 1, r),
+                      found=show(t5[r][c], maxdepth=5), expected=show(t6[r][c], maxdepth=5), detail='equal value numbers')
+
+    # ---- R02.5 positional closed form
+    for b in (six, five):
+        name = b.path.split('::')[-1]
+        t = theta_table(b)
+        comps = {}
+        for x in mir.subterms(('x', ) + tuple(t[k][c] for k in range(4) for c in range(3)),
+                              lambda x: x[0] == 'fld' and x[2] in ('x', 'y', 'z') and mir.contains(x[1], lambda y: y[0] == 'call' and cname(y[1]).endswith('::sub')) and
+                              mir.contains(x[1], lambda y: y[0] == 'fld' and y[2] == 'translation')):
+            comps.setdefault(x[2], set()).add(x)
+        if not ctx.check(all(len(comps.get(k, ())) == 1 for k in 'xyz'), 'R02.5', name + '/wrist-centre', b.where(0), b.path,
+                         'the wrist centre components (cx, cy, cz) could not be identified uniquely', found={k: len(v) for k, v in comps.items()}):
+            continue
+        cx, cy, cz = [list(comps[k])[0] for k in 'xyz']
+        spec = spec_positional(cx, cy, cz)
+        rg = algebra.Ring()
+        for k in range(4):
+            for c in range(3):
+                ok = (rg.nf(algebra.canon(spec[k][c])) - rg.nf(t[k][c])).is_zero()
+                ctx.check(ok, 'R02.5', '%s/theta%d/branch%d' % (name, c + 1, k), b.where(0), b.path,
+                          'theta%d of branch %d is not the OPW closed form' % (c + 1, k), found=show(t[k][c], maxdepth=5), expected=show(spec[k][c], maxdepth=5), detail='equals the published formula')
 
     # ---- R02.3 template agreement
     for b, cols in ((six, (3, 4, 5)), (five, (3, 4))):
